@@ -100,6 +100,17 @@ FUNCS = ["<func>f", "<func>g", "<builtin>norm_2"]
 
 def h_expr(rng, d, names, allow_if=True, allow_call=True):
     r = rng.random()
+    if d >= 2 and allow_if and rng.random() < 0.06:
+        # the SAME sub-expression (a conditional, a call) several times in one statement, once inside a branch
+        # of another conditional and once outside it: 'A if d else A + 1', '10*(A if d else 0) + A'
+        A = h_expr(rng, d - 1, names, True, allow_call)
+        if A[0] not in ("if", "call"):
+            A = ["if", ["cmp", "<", ["var", rng.choice(names)], ["num", 2]], A, ["var", rng.choice(names)]]
+        dcond = rng.choice([["var", rng.choice(FLAGS)], ["cmp", ">", ["var", rng.choice(names)], ["num", 1]]])
+        return rng.choice([["if", dcond, A, ["+", A, ["num", 1]]],
+                           ["+", ["*", ["num", 10], ["if", dcond, A, ["num", 0]]], A],
+                           ["+", A, ["if", dcond, ["num", 3], A]],
+                           ["*", A, A]])
     if d <= 0 or r < 0.25:
         if rng.random() < 0.25:
             return ["num", rng.choice([2, 3, 5, -1])]
